@@ -56,6 +56,8 @@ def gen_cases(tier, rng):
             op = rng.choice(ALL_OPS)
             base = op[2:] if op.startswith("T:") else op
             vals = [None if rng.random() < 0.2 else rng.choice([-3, 1, 2, 7]) for _ in range(L)]
+            if rng.random() < 0.1:
+                vals = [rng.choice(["inf", "-inf"]) if (v is not None and rng.random() < 0.3) else v for v in vals]
             kinds = ["none", "b"]
             if base in REDUCTIONS and base != "median":
                 kinds += ["s", "p"]
